@@ -14,7 +14,7 @@ while [ $i -lt $K ]; do
     rsync -a --delete --exclude .git --exclude replays "$ROOT/" "$W/"
     awk -v k=$K -v i=$i 'NR % k == i' "$JOBS" | while read label patch ids; do
       [ -z "$label" ] && continue
-      "$W/tools/seedtest.sh" "$patch" "$ids" > "$OUT/$label.log" 2>&1
+      "$W/tools/seedtest.sh" "$patch" "$ids" "${PARTEST_SEED:-0}" > "$OUT/$label.log" 2>&1
     done
     rm -rf "$W"
   ) &
